@@ -30,6 +30,9 @@ PROPS["C03"] = dict(
          timeout=900, mem_gb=6, stubs_expected=["div_rem"]),
        H("c03::c03_addmod_zero_modulus", bounds="ADDMOD with N = 0, all a, b", timeout=900, mem_gb=6, stubs_expected=["div_rem"]),
        H("c03::c03_division_by_zero", bounds="DIV/MOD/SDIV/SMOD with divisor 0, all dividends", timeout=900, mem_gb=6, stubs_expected=["div_rem"]),
+       H("c03::c03_div_mod_glue", bounds="DIV and MOD, all 2^512 operand pairs, relative to ruint's div_rem (memoising stand-in)", timeout=1800, mem_gb=10, stubs_expected=["div_rem"]),
+       H("c03::c03_sdiv_glue", bounds="SDIV, all 2^512 operand pairs: absolute values, MIN/-1, sign fix-up, relative to ruint's div_rem", timeout=1800, mem_gb=10, stubs_expected=["div_rem"]),
+       H("c03::c03_smod_glue", bounds="SMOD, all 2^512 operand pairs: absolute values, sign of the dividend, relative to ruint's div_rem", timeout=1800, mem_gb=10, stubs_expected=["div_rem"]),
        H("c03::c03_shifts_not_activated_before_constantinople", bounds="SHL/SHR/SAR under ByzantiumSpec", mem_gb=4),
        H("c03::c03_twin_must_fail", expect_fail=True, bounds="vacuity twin", mem_gb=6)],
 )
